@@ -25,7 +25,10 @@ LEAN_MODULES = ["KrroodVerif.Props.C11"]
 THEOREMS = [
     "KrroodVerif.Match.C11_equiv_partial",
     "KrroodVerif.Match.C11_model_eq_spec_partial",
+    "KrroodVerif.Match.C11_equiv_partial_now",
     "KrroodVerif.Match.C11_full",
+    "KrroodVerif.Match.C11_full_now",
+    "KrroodVerif.Match.desugar_now",
     "KrroodVerif.Match.C11_equiv_gen",
     "KrroodVerif.Match.C11_matches_iff_rows",
     "KrroodVerif.Match.C11_history_independent",
@@ -41,7 +44,7 @@ THEOREMS = [
     "KrroodVerif.Match.C11_cex_lazy_flatten",
     "KrroodVerif.Match.C11_cex_falsy_value",
 ]
-MODEL_FUNCTION = ("Match.run = Match.desugar (Match._resolve, AttributeAssignment.resolve, "
+MODEL_FUNCTION = ("Match.run with Quirks.now (F-C11-3..6 repaired, F-C11-1/2 open) = Match.desugar (Match._resolve, AttributeAssignment.resolve, "
                   "infer_condition_between_attribute_and_assigned_value) + Match.evalQuery/evalCond/evalT "
                   "(Model/Match.lean, on the value level of Model/Eql.lean)")
 TRUSTED = [
@@ -547,7 +550,10 @@ def run_impl(cases):
             _count("trigger_" + t)
         if d.get("model") != d.get("spec"):
             _count("model_differs_from_spec")
-        if not trig and d.get("wf") == "true" and d.get("conf") == "true":
+        shapes = [t for t in d.get("shapes", "").split(",") if t]
+        for t in shapes:
+            _count("shape_" + t)
+        if not shapes and d.get("wf") == "true" and d.get("conf") == "true":
             _count("in_scope_of_C11_equiv_partial" if d.get("nsel") == "0" else "clean_with_selected_parts")
         if d.get("conf") != "true":
             _count("world_not_conforming")
